@@ -422,6 +422,23 @@ theorem cinv_xstep {src : Nat → UInt8} {u t : List Nat} (s : XDisk) (x : XOp) 
         rw [(segs_same s.d .rdbClose (Or.inr (Or.inl rfl))).1] at hx
         exact Or.inl ⟨hx, rfl⟩
       · exact hb
+  | rdbCommitFail chunk ren rmOk =>
+    have hb := cinv_xbase (u := u) (t := t) s (.rdbAppend chunk) hinv hok h
+    simp only [xstep]
+    cases hr : s.d.rdb with
+    | none => exact hb
+    | some r =>
+      simp only []
+      split
+      · apply cinv_of h mem_t_append
+        intro x hx _
+        rw [(segs_same s.d .rdbClose (Or.inr (Or.inl rfl))).1] at hx
+        refine Or.inl ⟨hx, ?_⟩
+        apply get_applyAll_other
+        intro o ho
+        rw [commitFail_okOps_names r chunk ren rmOk o ho]
+        simp [aofName, rdbTmpName]
+      · exact hb
   | gcRmFail stuck all =>
     simp only [xstep]
     apply cinv_of h mem_t_append
